@@ -60,6 +60,14 @@ TOKEN_OF = {"id": "ID", "idm": "ID", "pric": "PRIORITY", "prim": "PRIORITY", "d6
             "zid_d": "ZID", "ldate_m": "DATE", "ldate_d": "DATE", "d6_i": "ID", "zid_i": "ZID", "ldate_i": "DATE"}
 
 
+def pick(members, i):
+    """members[i] with the index realised by equality tests (list indexing keeps ints symbolic)"""
+    for k in range(len(members)):
+        if i == k:
+            return members[k]
+    raise AssertionError("index out of range")
+
+
 def long_of(s6):
     return "20" + s6[0:2] + "-" + s6[2:4] + "-" + s6[4:6]
 
@@ -342,6 +350,27 @@ def multi_set(tier, seed):
     return out
 
 
+FIRSTW_MENU = ("alpha", "P5", "o", "x", "1230", "240612x")
+
+
+def firstword_set(tier):
+    """first BODY word (after kind, priority, ZID) from a vocabulary of words that look like prefixes.  These words have
+    token types of their own (PRIORITY, LOWER_O, LOWER_X, TIME, ID), so each is a skeleton of its own - no hole; the
+    generator groups them into one condition per (kind, priority, layout) with the word index as the only argument"""
+    out = []
+    for kind in KINDS:
+        for with_pri in ((False,) if kind == "-" else (False, True)):
+            for layout in ("plain", "zid"):
+                for wi, w in enumerate(FIRSTW_MENU):
+                    if layout == "plain" and not with_pri and kind != "-" and w == "P5":
+                        continue        # 'o P5 rest' IS a priority, not a body word
+                    it = Item(kind, pri="P1" if with_pri else None, layout=layout, lay={"zid": "240510#0R"}, words=[w, "rest"])
+                    out.append(PageSpec("first-%s-%s-%s-%d" % ({"-": "note"}.get(kind, "todo" + kind), "pri" if with_pri else "nopri",
+                                                               layout, wi),
+                                        [("title", "title"), ("blank", None), ("item", it)]))
+    return out
+
+
 def legal_header_sequences(maxlen):
     """every legal sequence of section levels: H1 anywhere; H2 anywhere (before the first H1 it hangs off the page
     head); H3 only inside an open H2; H4 only inside an open H3"""
@@ -399,4 +428,4 @@ def section_set(tier):
 
 
 def all_specs(tier, seed):
-    return core_set(tier) + layout_set(tier) + multi_set(tier, seed) + section_set(tier)
+    return core_set(tier) + layout_set(tier) + multi_set(tier, seed) + section_set(tier) + firstword_set(tier)
